@@ -373,7 +373,7 @@ def _check(args):
         form.pop("__info", None)
     if not clash and i % 4 == 1:
         rx = rng_for(seed, PID, "exotic", i)
-        forms.add_exotics(rx, form, ["audit", "count_expr", "search", "osm", "empty_group", "legacy_hint", "calc_msgs", "entity_variants", "entity_variants", "hint_only_computed", "seeded_select"], p=0.35)
+        forms.add_exotics(rx, form, ["audit", "count_expr", "search", "osm", "empty_group", "legacy_hint", "calc_msgs", "entity_variants", "entity_variants", "hint_only_computed", "seeded_select", "loop", "loop", "shared_repeat_name", "table_list_repeat_plain"], p=0.35)
         if rx.random() < 0.5:
             form.setdefault("settings", [{}])[0]["flat"] = rx.choice(["yes", "true"])
     planted = plant_clash(rng, form) if clash else None
